@@ -321,6 +321,21 @@ class Fold(ast.NodeTransformer):
             if v is not None and all(_cheap(a) or _const(a) for a in list(n.value.args) + [k.value for k in n.value.keywords]):
                 self.changed = True
                 return copy.deepcopy(v)
+        # NAME.field  with NAME a module-level constant bound to a record construction of constants (a table entry with a name of its own)
+        if self.repo is not None and isinstance(n.ctx, ast.Load) and isinstance(n.value, ast.Name):
+            local_names = getattr(self, "_locals", None)
+            if local_names is None:
+                a_ = self.f.node.args
+                local_names = {p.arg for p in a_.posonlyargs + a_.args + a_.kwonlyargs} | {x.id for x in ast.walk(self.f.node) if isinstance(x, ast.Name) and isinstance(x.ctx, ast.Store)}
+                self._locals = local_names
+            if n.value.id not in local_names:
+                cv = self.repo.const_value(self.f.mod, n.value.id)
+                if isinstance(cv, ast.Call) and isinstance(cv.func, ast.Name):
+                    from .normalize import record_value
+                    v = record_value(self.repo, self.f.mod, cv, n.attr)
+                    if v is not None and _const(v):
+                        self.changed = True
+                        return copy.deepcopy(v)
         return n
 
     def visit_Subscript(self, n):
